@@ -28,8 +28,15 @@ Fixpoint compile_stmt_fx (st : dstack) (h : hstmt) {struct h} : result (list tst
   | HBreak (Some l) => Ok (unwind_incl st l ++ [TJumpExit l])
   | HContinue None => Crash 3
   | HContinue (Some l) => Ok (unwind_incl st l ++ [TJumpHeader l])
-  | HTry None => Crash 4
-  | HTry (Some l) => Ok [TTry (unwind_incl st l ++ [TJumpExit l])]
+  | HTry _ None => Crash 4
+  | HTry k (Some l) =>
+      (* the three error-path branches of Expr::Propagate; each one goes through
+         break_to_label and hence run_defers_to_label *)
+      match k with
+      | TryZeroSized => Ok [TTry (unwind_incl st l ++ [TJumpExit l])]   (* break_to_label(None, label) *)
+      | TryOptional => Ok [TTry (unwind_incl st l ++ [TJumpExit l])]    (* break_to_label(Some(nil_value), label) *)
+      | TryError => Ok [TTry (unwind_incl st l ++ [TJumpExit l])]       (* break_to_label(casted, label) *)
+      end
   | HBlock sid body =>
       do x <- compile_list (fun s x => compile_stmt_fx s x) sid st [] body;
       let '(code, defers, no_eval) := x in
